@@ -1216,7 +1216,12 @@ class TokenizerCore:
                     text += self._char + self._peek
 
                 if self._current + 1 < self.size:
-                    self._advance(2)
+                    if self._peek == "\n" or self._peek == "\r":
+                        # an escaped line break still has to be counted, so step over it
+                        self._advance()
+                        self._advance()
+                    else:
+                        self._advance(2)
                 else:
                     raise TokenError(f"Missing {delimiter} from {self._line}:{self._current}")
             else:
